@@ -8,7 +8,7 @@ import (
 // LineSigma is the literal-rich alphabet for the formatter checks (C09, C19):
 // symbols are concatenated without implicit separators.
 var LineSigma = []string{
-	" ", "\n",
+	" ", "\n", "\r\n",
 	"a", "b", "true", "1", "1.5",
 	`"s"`, `"q\"\\é"`, "\"x\\\ny\"", "\"\t\"",
 	"/r/", "/a//b/",
@@ -90,13 +90,17 @@ func Files(n int, stopped func() bool, mine func() bool, skip func(), emit func(
 		if stopped() {
 			return
 		}
-		for _, term := range []string{"\n", ""} {
+		for _, term := range []string{"\n", "", "\r\n"} {
 			if mine() {
 				var sb strings.Builder
 				id := "file:"
+				sep := "\n"
+				if term == "\r\n" { // every line of the file ends in CR LF
+					sep = term
+				}
 				for i, c := range cur {
 					if i > 0 {
-						sb.WriteString("\n")
+						sb.WriteString(sep)
 					}
 					if FileLines[c.l] != "" {
 						sb.WriteString(Indents[c.in])
